@@ -7,6 +7,7 @@ pub mod c01;
 pub mod c03;
 pub mod c04;
 pub mod c06;
+pub mod c07;
 pub mod c08;
 pub mod c13;
 pub mod c14;
@@ -79,6 +80,7 @@ pub fn lookup(id: &str) -> Option<Box<dyn Prop>> {
         "C04" => Some(Box::new(c04::C04)),
         "C05" => Some(Box::new(c01::C05)),
         "C06" => Some(Box::new(c06::C06)),
+        "C07" => Some(Box::new(c07::C07)),
         "C08" => Some(Box::new(c08::C08)),
         "C13" => Some(Box::new(c13::C13)),
         "C14" => Some(Box::new(c14::C14)),
